@@ -1,6 +1,7 @@
 import Rsp.Model.Ttl
 import Rsp.Spec.Ttl
 import Rsp.Spec.Choose
+import Rsp.Spec.Addr
 namespace Drive
 open Rsp
 
@@ -25,6 +26,41 @@ def parseLostInto (l : List Choose.Entry) (ts : List String) : Option (List Choo
     | none => if t = "x" then some none else none
     | some (st, _) => t.toNat?.map fun lo => some (st, lo)
 
+def parseFam (t : String) : Option Addr.Fam :=
+  if t = "4" then some .v4 else if t = "6" then some .v6 else none
+
+/-- conf tokens: `C<type>` starts a block, `E<fam>:<addrhex>:<prefix>:<port>:<text>` adds a host entry (one resolved address) -/
+def parseConfs (ts : List String) : Option (List Addr.Conf) :=
+  let rec go (ts : List String) (acc : List Addr.Conf) : Option (List Addr.Conf) :=
+    match ts with
+    | [] => some acc.reverse
+    | t :: rest =>
+      if t.startsWith "C" then
+        match (t.drop 1).toString.toNat? with
+        | some ty => go rest ({ type := ty, hostports := [] } :: acc)
+        | none => none
+      else if t.startsWith "E" then
+        match (t.drop 1).toString.splitOn ":", acc with
+        | f :: a :: p :: port :: _, c :: acc' =>
+          match parseFam f, ofHex a, p.toNat?, port.toNat? with
+          | some f, some a, some p, some port =>
+            go rest ({ c with hostports := c.hostports ++ [{ prefixlen := p, addrs := [{ fam := f, addr := a, port := port }] }] } :: acc')
+          | _, _, _, _ => none
+        | _, _ => none
+      else none
+  go ts []
+
+def parseFind (args : List String) : Option (Nat × Bool × Addr.Src × List Addr.Conf) :=
+  match args with
+  | ty :: sp :: f :: a :: port :: confs => do
+    let ty ← ty.toNat?
+    let f ← parseFam f
+    let a ← ofHex a
+    let port ← port.toNat?
+    let cs ← parseConfs confs
+    pure (ty, sp = "1", { fam := f, addr := a, port := port }, cs)
+  | _ => none
+
 def model (op : String) (args : List String) : String :=
   match op, args with
   | "decttl", [h] =>
@@ -37,6 +73,15 @@ def model (op : String) (args : List String) : String :=
       let r := Choose.choose l
       let idx := match r.1 with | some i => toString i | none => "none"
       (idx ++ " " ++ showLost r.2).trimAscii.toString
+    | none => "bad-op"
+  | "prefixmatch", [a, b, len] =>
+    match ofHex a, ofHex b, len.toNat? with
+    | some a, some b, some len => if Addr.prefixmatch a b len then "1" else "0"
+    | _, _, _ => "bad-op"
+  | "findconf", args =>
+    match parseFind args with
+    | some (ty, sp, src, cs) =>
+      match Addr.findConf ty src cs sp with | some i => toString i | none => "none"
     | none => "bad-op"
   | _, _ => "bad-op"
 
@@ -57,6 +102,19 @@ def spec (op : String) (args impl : List String) : String :=
         else if !Spec.lostOk l l' then "bad choose-sideeffect"
         else "ok"
       | _, _ => "bad choose-output-shape"
+    | none => "bad-op"
+  | "prefixmatch", [a, b, len], [r] =>
+    match ofHex a, ofHex b, len.toNat? with
+    | some a, some b, some len =>
+      if (Spec.leadingBitsEq a b len) == (r == "1") && (r == "1" || r == "0") then "ok" else "bad prefix-bits"
+    | _, _, _ => "bad-op"
+  | "findconf", args, [r] =>
+    match parseFind args with
+    | some (ty, sp, src, cs) =>
+      let ri : Option (Option Nat) := if r = "none" then some none else r.toNat?.map some
+      match ri with
+      | some ri => if Spec.findConfOk ty src cs sp ri then "ok" else "bad attribution"
+      | none => "bad attribution-output-shape"
     | none => "bad-op"
   | _, _, _ => "bad-op"
 
